@@ -272,6 +272,10 @@ spif_str_init_from_fd(spif_str_t self, int fd)
     self->s = (spif_charptr_t) MALLOC(self->size);
 
     for (p = self->s; ((n = read(fd, p, buff_inc)) > 0) || ((n < 0) && (errno == EINTR));) {
+        if (n < 0) {
+            /* Interrupted before anything was read.  Just try again. */
+            continue;
+        }
         self->size += n;
         self->s = (spif_charptr_t) REALLOC(self->s, self->size);
         /* The buffer may have moved; the free space is its last buff_inc bytes. */
